@@ -55,6 +55,9 @@ func profile(name string, cfgs []vtx.Config) *vtx.Profile {
 				}
 			}
 			e = append(e, vtx.Event{K: "close-server", L: -1})
+			if len(m.Allocs) > 0 {
+				e = append(e, vtx.Event{K: "close-server", L: -1, Fail: "closeerr"})
+			}
 
 			return append(e, vtx.AdvanceMenu(m, now, []time.Duration{time.Nanosecond}, nil)...)
 		},
